@@ -486,6 +486,10 @@ func (t *Tpl) writeNode(w io.Writer, node *node, ctx *Ctx) (err error) {
 		}
 		if ctx.Err != nil {
 			err = ctx.Err
+			if err == ErrBreakLoop || err == ErrContLoop {
+				// Break/continue in the for-else branch is a signal for the parent loop, not an error to keep.
+				ctx.Err = nil
+			}
 			return
 		}
 	case typeLoopRange:
@@ -500,6 +504,10 @@ func (t *Tpl) writeNode(w io.Writer, node *node, ctx *Ctx) (err error) {
 		}
 		if ctx.Err != nil {
 			err = ctx.Err
+			if err == ErrBreakLoop || err == ErrContLoop {
+				// Break/continue in the for-else branch is a signal for the parent loop, not an error to keep.
+				ctx.Err = nil
+			}
 			return
 		}
 	case typeBreak:
